@@ -328,6 +328,20 @@ def escape_agree(ck, F, rule="ESCAPE-AGREE"):
     def preds(root_suffix):
         out = set()
         roots = [p for p in F.body_paths() if F.qname_of(p) and (F.qname_of(p).endswith(root_suffix) or ("%s::{closure" % root_suffix) in F.qname_of(p))]
+        # private helpers of the same file that the function calls (and their closures): `escaped_char_at(s, bytes, i)`
+        extra = []
+        for p in list(roots):
+            if "{closure" in (F.qname_of(p) or ""):
+                continue
+            b0 = F.body(p)
+            for bi, t in b0.calls():
+                c = b0.callee(t)
+                hc = F.heads.get(c) if c else None
+                if hc is not None and F.has(c) and hc.get("file") == b0.file and hc.get("vis") not in ("pub",) and c not in roots and \
+                        not (hc.get("output") == "bool" and F.body(c).nargs == 1):
+                    extra.append(c)
+                    extra += [x for x in F.body_paths() if F.heads[x].get("root") == c and x != c]
+        roots = roots + [x for x in extra if x not in roots]
         for p in roots:
             b = F.body(p)
             for bi, t in b.calls():
